@@ -1,6 +1,7 @@
 import Scion.Model.Renewal
 import Scion.Proofs.Chain
 import Scion.Props.C34
+import Scion.Gen.Pki2
 /-!
 # C37 — Certificate renewal is granted only to the certified AS itself
 
@@ -288,6 +289,24 @@ theorem issued_is_as_profile (i : IssueIn) (a c : Cert) (h : createChain i = .ok
   obtain ⟨_, _, _, hv, _⟩ := issued_chain_props i a c h
   obtain ⟨_, ha, hc, _, _⟩ := (C34.validateChain_ok_iff _ _ _).1 hv
   exact ⟨((C34.validateCert_as_iff a).1 ha).2, (C34.validateCert_ca_iff c).1 hc⟩
+
+/-! ## Facts regenerated from the source (T3) -/
+
+theorem gen_call_order :
+    Gen.Pki2.verifyRequestCalls =
+      ["ParseContentInfo", "SignedDataContent", "ExtractChain", "VerifySignature", "EContentValue",
+       "ParseCertificateRequest", "processCSR"] ∧
+    Gen.Pki2.extractChainCalls = ["X509Certificates", "ValidateCert", "ValidateChain"] ∧
+    Gen.Pki2.verifySignatureCalls =
+      ["FindCertificate", "verifyClientChain", "IsTypeData", "EContentValue", "verifySignerInfo"] ∧
+    Gen.Pki2.verifyClientChainCalls =
+      ["ExtractIA", "SignedTRC", "IsZero", "Contains", "VerifyChain", "After", "GracePeriodEnd",
+       "verifyWithGraceTRC"] ∧
+    Gen.Pki2.verifyWithGraceCalls = ["SignedTRC", "IsZero", "Contains", "VerifyChain"] ∧
+    Gen.Pki2.processCSRCalls = ["ExtractIA", "ExtractIA", "Equal", "CheckSignature"] ∧
+    Gen.Pki2.createChainCalls =
+      ["Covers", "SubjectKeyID", "CreateCertificate", "ParseCertificate", "ValidateChain"] := by
+  decide
 
 /-! ## Non-vacuity -/
 
